@@ -842,8 +842,9 @@ BUSY = 2048
 class AxiLiteCdcWrapper(Module):
     def __init__(self):
         from litex.soc.interconnect.axi import AXILiteInterface, AXILiteClockDomainCrossing
-        self.m = AXILiteInterface(data_width=8, address_width=2)
-        self.s = AXILiteInterface(data_width=8, address_width=2)
+        # address wider than the data word, and an address with bits above the data width set: every channel FIFO must carry its own layout
+        self.m = AXILiteInterface(data_width=8, address_width=10)
+        self.s = AXILiteInterface(data_width=8, address_width=10)
         self.submodules.cdc = AXILiteClockDomainCrossing(self.m, self.s, "a", "b")
 
 
@@ -856,7 +857,7 @@ class AxiLiteCdcHarness(CdcHarness):
        slave (aw, wdat, bv, rv, smem): address / data received, B / R being offered, memory word
     choice = (tick set, master action when idle at an a tick: 0 stay idle, 1 write, 2 read).  The slave is deterministic (accepts
     whatever it can hold, answers one b tick later); all five channels carry all-ones garbage while not valid."""
-    ADDR, PROT, BRESP, RRESP = 0b10, 0b101, 0b10, 0b01
+    ADDR, PROT, BRESP, RRESP = 0x2A6, 0b101, 0b10, 0b01
     DATA = (0xA5, 0x3C)
     live_queries = (
         ("live.axi_hang", BUSY, PROGRESS, (TICK_A, TICK_B),
